@@ -58,6 +58,10 @@ impl FreeWord {
     }
 
     pub fn rotated(&self, i: isize) -> Self {
+        if self.w.is_empty() {
+            return self.clone();
+        }
+
         let n = self.w.len() as isize;
         let i = i.rem_euclid(n) as usize;
 
